@@ -280,6 +280,29 @@ func Load(dir string) (*Engine, error) {
 			break
 		}
 	}
+	// method objects back to locals (after every helper and method has been inlined)
+	if sov, snts := scalarReplaceTransients(cur, readSource(overlay)); len(sov) > 0 {
+		merged := map[string][]byte{}
+		for k, v := range overlay {
+			merged[k] = v
+		}
+		for k, v := range sov {
+			merged[k] = v
+		}
+		if d := os.Getenv("ALLIANCECHECK_DEBUG_INLINE"); strings.HasPrefix(d, "/") {
+			for k, v := range sov {
+				_ = os.WriteFile(filepath.Join(d, "s_"+filepath.Base(k)), v, 0o644)
+			}
+		}
+		if nx, err := loadOverlay(dir, merged); err == nil {
+			cur, overlay = nx, merged
+			notes = append(notes, snts...)
+		} else {
+			notes = append(notes, "scalar replacement abandoned: "+strings.SplitN(err.Error(), "\n", 3)[0])
+		}
+	} else {
+		notes = append(notes, snts...)
+	}
 	cur.Inlined = inlined
 	cur.InlineNotes = notes
 	cur.Overlay = overlay
